@@ -1,6 +1,6 @@
 // C07 harness: the integer cores of global placement at the boundaries of the magnitude domains of Properties_C07.v,
 // run from /repo's working tree under the sanitizer build (observation side of the machine-integer theorems).
-//   c07mag gen SEED COUNT      case lines (three kinds, see below)
+//   c07mag gen SEED COUNT      case lines (kinds M1-M3, see below);  c07mag gen SEED COUNT 4: M4 lines only
 //   c07mag run < cases         one result line per case: "OK <digest>" / "THROW <what>"; a sanitizer report kills the
 //                              process, the remaining lines are then missing (reported by checks/c07.py)
 // case lines:
@@ -11,13 +11,26 @@
 //        INT_MAX / (4 ns)): increaseCapacity(), solve(), toAssignment(); capacities/demands all small or all large
 //   "M3 binSize k minX maxX minY maxY (k times)"     DensityGrid(binSize, regions), totalCapacity(); regions inside
 //        [-2^22, 2^22]^2
+//   "M4 ns nr bits[snk][src].."                      the FLOAT constructor TransportationProblem(caps, dems, costs) with the
+//        binary32 bit patterns of the costs (unit capacities/demands): prints costs() -- compared integer for integer with
+//        the Flocq model CostsFloat.costs_from_floats evaluated by vm_compute (checks/c07.py costs_tie).  `c07mag gen SEED
+//        COUNT 4` generates them: 1..16 sinks, zeros, equal entries, denormals, entries ~1e30, FLT_MAX, all-tiny matrices
+//        (maxVal stays 1e-8f), -0.0f, and (1 in 8) negative entries no larger in magnitude than the maximum (defined
+//        conversions, outside cost_dom)
+//   "M5 model xbits ybits qbits lo hi"                the producer side of the float costs: prints the binary32 bit patterns of
+//        coloquinte::norm(x, y, model) (utils/norm.hpp, the real function), of d * (1.0f + q * d) (a REPLICA of the one-line
+//        body of DensityLegalizer::distance, which is a private inline of the .cpp and cannot be linked) and of
+//        HierarchicalDensityPlacement::binX(0, 0) of a one-bin grid over [lo, hi] (the real function); compared bit for
+//        bit with CostsFloat.norm_f / distance_f / bin_center_f.  `c07mag gen SEED COUNT 5` generates them.
 #include "vh.hpp"
+#include <cstring>
 #include <climits>
 #define private public
 #define protected public
 #include "place_global/transportation_1d.hpp"
 #include "place_global/transportation.hpp"
 #include "place_global/density_grid.hpp"
+#include "utils/norm.hpp"
 using namespace coloquinte;
 typedef long long ll;
 
@@ -78,6 +91,68 @@ static void gen(unsigned long long seed, long long count) {
   }
 }
 
+static float b2f(unsigned b) { float f; memcpy(&f, &b, 4); return f; }
+
+static void gen4(unsigned long long seed, long long count) {
+  SplitMix g(seed);
+  for (long long it = 0; it < count; ++it) {
+    int ns = g.coin(30) ? (int)g.uni(1, 3) : (int)g.uni(1, 16), nr = (int)g.uni(1, 6);
+    int cls = (int)g.uni(0, 7); if (cls > 5) cls = 3;     // 0 any exponent, 1 around 1e30, 2 all below 1e-8, 3 moderate (1e-3..1e6), 4 denormal-heavy, 5 mixed
+    bool neg = g.coin(12);
+    unsigned base = 0;
+    std::vector<unsigned> v((size_t)ns * nr);
+    auto draw = [&]() -> unsigned {
+      int c = cls == 5 ? (int)g.uni(0, 4) : cls;
+      unsigned frac = (unsigned)g.uni(0, 0x7fffff);
+      if (g.coin(15)) frac = g.coin(50) ? 0 : 0x7fffff;
+      if (base != 0 && g.coin(40)) return (base & 0x7f800000u) | frac;      // the binade of the repeated entry: non-zero scaled costs
+      switch (c) {
+        case 0: return ((unsigned)g.uni(0, 254) << 23) | frac;
+        case 1: return ((unsigned)g.uni(220, 230) << 23) | frac;           // 2^93..2^103 ~ 1e28..1e31
+        case 2: return ((unsigned)g.uni(0, 99) << 23) | frac;              // < 2^-27 < 1e-8
+        case 3: return ((unsigned)g.uni(117, 147) << 23) | frac;
+        default: return g.coin(60) ? (frac ? frac : 1u) : (((unsigned)g.uni(0, 40) << 23) | frac);
+      }
+    };
+    base = draw();
+    for (auto &x : v) {
+      int k = (int)g.uni(0, 9);
+      x = k == 0 ? 0u : k <= 2 ? base : k == 3 && g.coin(30) ? 0x7f7fffffu : k == 4 && g.coin(20) ? 0x80000000u : draw();
+    }
+    if (neg) {
+      for (auto &x : v) if (g.coin(25)) x |= 0x80000000u;
+      // keep the conversions defined: a negative entry no larger in magnitude than maxVal = max(1e-8f, positive entries)
+      float mx = 1.0e-8f;
+      for (unsigned x : v) if (!(x & 0x80000000u)) mx = std::max(mx, b2f(x));
+      for (auto &x : v) if ((x & 0x80000000u) && b2f(x & 0x7fffffffu) > mx) x &= 0x7fffffffu;
+    }
+    printf("M4 %d %d", ns, nr);
+    for (unsigned x : v) printf(" %u", x);
+    printf("\n");
+  }
+}
+
+static unsigned f2b(float f) { unsigned b; memcpy(&b, &f, 4); return b; }
+
+static void gen5(unsigned long long seed, long long count) {
+  SplitMix g(seed);
+  for (long long it = 0; it < count; ++it) {
+    int model = (int)g.uni(0, 5);
+    auto coord = [&]() -> unsigned {          // a finite float of magnitude < 2^29 (sign random); small, integral and tiny values too
+      int k = (int)g.uni(0, 9);
+      unsigned sgn = g.coin(50) ? 0x80000000u : 0u;
+      if (k == 0) return sgn;
+      if (k == 1) return sgn | f2b((float)g.uni(0, 1 << 22));
+      if (k == 2) return sgn | (unsigned)g.uni(1, 0x7fffff);
+      return sgn | ((unsigned)g.uni(k <= 5 ? 120 : 60, 155) << 23) | (unsigned)g.uni(0, 0x7fffff);
+    };
+    unsigned q = g.coin(30) ? 0u : g.coin(20) ? 0x3f800000u : (((unsigned)g.uni(100, 126) << 23) | (unsigned)g.uni(0, 0x7fffff));
+    const ll C = 1LL << 22;
+    ll lo = g.coin(20) ? -C : g.uni(-C, C - 1), hi = g.coin(20) ? C : g.uni(lo + 1, C);
+    printf("M5 %d %u %u %u %lld %lld\n", model, coord(), coord(), q, lo, hi);
+  }
+}
+
 static std::string run_case(const std::string &line) {
   auto x = vh_ints(line.substr(3)); size_t p = 0;
   auto nx = [&]() -> ll { return p < x.size() ? x[p++] : 0; };
@@ -111,12 +186,36 @@ static std::string run_case(const std::string &line) {
     DensityGrid grid(binSize, regs);
     snprintf(buf, sizeof buf, "OK %d %d %lld", grid.nbBinsX(), grid.nbBinsY(), grid.totalCapacity()); return buf;
   }
+  if (line.compare(0, 2, "M4") == 0) {
+    int ns = nx(), nr = nx();
+    std::vector<ll> caps(ns, 1), dems(nr, 1); std::vector<std::vector<float>> costs(ns, std::vector<float>(nr));
+    for (auto &r : costs) for (auto &c : r) c = b2f((unsigned)nx());
+    TransportationProblem pb(caps, dems, costs);
+    std::string out = "OK";
+    for (auto &r : pb.costs()) for (int c : r) { snprintf(buf, sizeof buf, " %d", c); out += buf; }
+    return out;
+  }
+  if (line.compare(0, 2, "M5") == 0) {
+    int model = (int)nx(); float x = b2f((unsigned)nx()), y = b2f((unsigned)nx()), q = b2f((unsigned)nx());
+    int lo = (int)nx(), hi = (int)nx();
+    float d = norm(x, y, (LegalizationModel)model);
+    float val = d * (1.0f + q * d);                       // replica of density_legalizer.cpp:103 with q = (float)quadraticPenaltyFactor
+    std::vector<Rectangle> regs; regs.emplace_back(lo, hi, 0, 1);
+    DensityGrid grid(1 << 30, regs);
+    HierarchicalDensityPlacement hp(grid, std::vector<int>());
+    snprintf(buf, sizeof buf, "OK %u %u %u %d", f2b(d), f2b(val), f2b(hp.binX(0, 0)), hp.nbBinsX()); return buf;
+  }
   return "?FORMAT";
 }
 
 int main(int argc, char **argv) {
   std::string mode = argc > 1 ? argv[1] : "run";
-  if (mode == "gen") { gen(strtoull(argv[2], nullptr, 10), atoll(argv[3])); return 0; }
+  if (mode == "gen") {
+    if (argc > 4 && atoi(argv[4]) == 4) gen4(strtoull(argv[2], nullptr, 10), atoll(argv[3]));   // the M4 stream only
+    else if (argc > 4 && atoi(argv[4]) == 5) gen5(strtoull(argv[2], nullptr, 10), atoll(argv[3]));
+    else gen(strtoull(argv[2], nullptr, 10), atoll(argv[3]));
+    return 0;
+  }
   vh_silence();
   std::string line;
   while (std::getline(std::cin, line)) {
